@@ -1073,6 +1073,14 @@ def n_array(ex, st, args, kwargs, node):
     return PyList(Seq(s.length, s.get, np=True), np=True)
 
 
+def n_asarray(ex, st, args, kwargs, node):
+    (v,) = args[:1]
+    if isinstance(v, PyList) and v.np:
+        used(ex, "numpy.asarray of an array returns that array (no copy; a dtype argument that would force a conversion is not modelled: stored loads are float arrays)")
+        return v
+    return n_array(ex, st, args, kwargs, node)
+
+
 def n_hstack(ex, st, args, kwargs, node):
     (v,) = args
     used(ex, "numpy.hstack: concatenation of 1-D arrays / scalars")
@@ -1345,7 +1353,7 @@ _TABLE = {
     "dict": b_dict, "type": b_type,
     "math.isclose": m_isclose, "numpy.isclose": m_isclose, "math.ceil": m_ceil, "math.floor": m_floor, "math.sqrt": m_sqrt, "math.log": m_log, "math.exp": m_exp,
     "math.sin": m_trig(SIN, "sin"), "math.cos": m_trig(COS, "cos"), "math.atan": m_trig(ATAN, "atan"),
-    "numpy.append": n_append, "numpy.array": n_array, "numpy.hstack": n_hstack, "numpy.log": m_log,
+    "numpy.append": n_append, "numpy.array": n_array, "numpy.asarray": n_asarray, "numpy.asanyarray": n_asarray, "numpy.hstack": n_hstack, "numpy.log": m_log,
     "numpy.arange": n_arange, "numpy.zeros": n_zeros, "numpy.sqrt": m_sqrt, "numpy.exp": m_exp,
     "warnings.warn": b_print,
     "scipy.optimize.brentq": m_brentq,
